@@ -26,7 +26,7 @@ type Verdict struct {
 	MustFail    []Clause // reasons (from the statements) why the call must not succeed
 	MustSucceed *Clause  // set when the statements require acceptance
 	Apply       func(res *Result) []Clause
-	Side        string // sender | dest | both | system | none
+	Side        string   // sender | dest | both | system | none
 	Charge      *uint64  // expected gas consumed by a successful sender-side execution (C16)
 	ChargeAlt   []uint64 // other acceptable values (same-shard NFT moves, see DESIGN C16)
 	Labels      []string
